@@ -12,6 +12,12 @@ import time
 import faulthandler
 
 
+# optional hooks run in the parent around os.fork() (set by ctx: the synchronisation seam must be
+# in place while at-fork handlers of the library run in the child)
+before_fork = None
+after_fork_in_parent = None
+
+
 class NodeTimeout(Exception):
     pass
 
@@ -29,7 +35,16 @@ def fork_call(fn, args=(), wall_timeout=120.0):
     r, w = os.pipe()
     sys.stdout.flush()
     sys.stderr.flush()
-    pid = os.fork()
+    if before_fork is not None:
+        before_fork()
+    try:
+        pid = os.fork()
+    except BaseException:
+        if after_fork_in_parent is not None:
+            after_fork_in_parent()
+        raise
+    if pid != 0 and after_fork_in_parent is not None:
+        after_fork_in_parent()
     if pid == 0:
         # ---- child ----
         code = 0
